@@ -450,6 +450,17 @@ func (ms *Modules) Process() []error {
 	for _, m := range mods {
 		ToEntry(m).Augment(true)
 	}
+	// An augment that could only be applied now (its path runs through a
+	// case that was inserted above) may have added nodes that need a case
+	// of their own.
+	if len(mods) > 0 {
+		for _, m := range ms.Modules {
+			ToEntry(m).FixChoice()
+		}
+		for _, m := range ms.SubModules {
+			ToEntry(m).FixChoice()
+		}
+	}
 	// Merging an augment can record an error (e.g. a duplicate node) on the
 	// augmented module, which need not be one that has augments left over,
 	// so collect the errors of all modules.
